@@ -48,6 +48,7 @@ type Contract struct {
 	Summary    bool
 	Alias      [][2]string
 	NonNil     []string
+	CallReqs   map[string][]Clause // callback parameter name -> ghost preconditions asserted at each call through it
 	Info       *types.Info
 	Line       int
 	Opts       map[string]string
@@ -59,7 +60,7 @@ type ExternAssume struct {
 	Info *types.Info
 }
 
-var kwRe = regexp.MustCompile(`^(func|props|variant|ghost|requires|ensures|invariant|decreases|assigns|safe|summary|alias|nonnil|extern|opt|lemma|assume)\b`)
+var kwRe = regexp.MustCompile(`^(func|props|variant|ghost|requires|ensures|invariant|decreases|assigns|safe|summary|alias|nonnil|extern|opt|lemma|assume|callreq)\b`)
 var tagRe = regexp.MustCompile(`^\[([A-Za-z0-9, ]+)\]\s*`)
 var nameRe = regexp.MustCompile(`^([a-zA-Z_][a-zA-Z0-9_\-]*):\s+`)
 
@@ -179,6 +180,20 @@ func (e *Engine) loadContracts(file *ast.File) error {
 						cur.Assigns = append(cur.Assigns, Clause{Name: it, Src: it, Line: d.line})
 					}
 				}
+			case "callreq":
+				p := strings.SplitN(d.rest, " ", 2)
+				if len(p) != 2 {
+					return fmt.Errorf("line %d: callreq FUNCVALUE expr", d.line)
+				}
+				props, name, rest := splitTagName(strings.TrimSpace(p[1]))
+				counts[d.kw+p[0]]++
+				if name == "" {
+					name = strconv.Itoa(counts[d.kw+p[0]])
+				}
+				if cur.CallReqs == nil {
+					cur.CallReqs = map[string][]Clause{}
+				}
+				cur.CallReqs[p[0]] = append(cur.CallReqs[p[0]], Clause{Name: name, Props: props, Src: rest, Line: d.line})
 			case "invariant", "decreases":
 				p := strings.SplitN(d.rest, " ", 2)
 				if len(p) != 2 {
@@ -737,6 +752,12 @@ func (env *SpecEnv) callExpr(x *ast.CallExpr) Value {
 		return FPToSBV(64, env.eval(x.Args[0]).(Term))
 	case "truncToUint64":
 		return FPToUBV(64, env.eval(x.Args[0]).(Term))
+	case "inKeys":
+		mv, ok := env.eval(x.Args[0]).(MapVal)
+		if !ok {
+			env.fail("inKeys: first argument is not a map")
+		}
+		return fx.mapHas(env.st, mv, env.eval(x.Args[1]))
 	case "bytesEq":
 		a, b := env.eval(x.Args[0]), env.eval(x.Args[1])
 		ab, ao, al := env.bytesOf(a)
